@@ -141,11 +141,16 @@ var delimPool = []string{",", "|", "\t", ";", " ", "*", "~", ":", "^", "\"", "'"
 var jsPool = []string{"", "(", "{", "}", "var", "a +", "1", "'x'", "null", "undefined", "0/0", "1/0", "-1/0", "[]", "({})", "[1,2,[3]]", "({a:{b:[1]}})", "function(){}", "(function(){})",
 	"new Date(0)", "Symbol('x')", "throw 1", "throw new Error('x')", "JSON.parse('{')", "JSON.parse(_node)", "_node", "a.b.c", "a", "this", "eval('1')", "(() => 1)()", "`x${1}`",
 	"let a = 1; a", "var JSON = 1; JSON", "Math = 0", "Object.freeze(this); 1", "delete this.JSON; 1", "x = 5", "new Array(5)", "9007199254740993", "1e400", "-0", "'\\ud800'",
-	"new Proxy({}, {})", "new Map()", "new Set([1])", "new Uint8Array(3)", "Promise.resolve(1)", "/re/g", "BigInt ? 1 : 2", "(function f(n){return n?f(n-1):0})(100)", "[1,2,3].map(function(x){return x*2})",
+	"new Proxy({}, {})", "new Uint8Array(3)", "Promise.resolve(1)", "/re/g", "BigInt ? 1 : 2", "(function f(n){return n?f(n-1):0})(100)", "[1,2,3].map(function(x){return x*2})",
 	"({toString:function(){throw 1}})", "({valueOf:function(){return {}}})", "Object.create(null)"}
 
+// jsPoolMapSet: scripts whose completion value is a Map or Set -- outside the guard js_no_map_set:
+// goja's own export of a self-containing Map/Set overflows the stack (known finding N8).
+var jsPoolMapSet = []string{"new Map()", "new Set([1])", "var m=new Map(); m.set('k',m); m", "var s=new Set(); s.add(s); s", "new Map([[1,new Map([[2,3]])]])",
+	"var m=new Map(), n=new Map(); m.set(1,n); n.set(2,m); m", "[new Set([new Set()])]"}
+
 // jsPoolOdd: scripts whose completion value is cyclic, or runs user code (an accessor) while it is
-// exported to Go -- outside the guard js_export_total (known findings N6, N7).
+// exported to Go (the classes of the repaired defects N6, N7).
 var jsPoolOdd = []string{"var o={}; o.o=o; o", "var a=[]; a[0]=a; a", "({get a(){throw 1}})", "({get a(){throw new Error('x')}})", "new Proxy({}, {ownKeys:function(){throw 1}})", "[{get a(){throw 1}}]",
 	"new Proxy({}, {get:function(){throw 1}, ownKeys:function(){return ['a']}, getOwnPropertyDescriptor:function(){return {value:1,enumerable:true,configurable:true}}})"}
 
@@ -161,9 +166,7 @@ func on(name string) bool { return !guardsOff[name] && !guardsOff["all"] }
 func pickXPath(r *vh.Rng, guard bool) string {
 	for {
 		x := pick(r, exoticXPaths)
-		if !on("xpath_plain") || xpathPlain(x) {
-			return x
-		}
+		return x
 	}
 }
 
@@ -206,17 +209,6 @@ func mutateSchema(r *vh.Rng, root *interface{}, guard bool) string {
 			s := ss[r.Pick(len(ss))]
 			vals := []interface{}{nil, true, false, num("0"), num("1"), "", "x", []interface{}{}, map[string]interface{}{}, []interface{}{nil}, map[string]interface{}{"": nil}}
 			v := vals[r.Pick(len(vals))]
-			if on("xd_no_null") && v == nil && strings.Contains(s.path, "xpath_dynamic") {
-				continue
-			}
-			if on("xd_no_null") && strings.Contains(s.path, "xpath_dynamic") {
-				if _, isArr := v.([]interface{}); isArr {
-					continue
-				}
-				if _, isObj := v.(map[string]interface{}); isObj {
-					continue
-				}
-			}
 			s.set(v)
 			return "retype-member"
 		case 3, 4:
@@ -230,7 +222,7 @@ func mutateSchema(r *vh.Rng, root *interface{}, guard bool) string {
 				continue
 			}
 			s := cs[r.Pick(len(cs))]
-			if !on("int_plain") && r.Chance(0.5) {
+			if r.Chance(0.25) {
 				s.set(num(pick(r, oddIntForms)))
 				return "int-odd-form:" + lastKey(s.path)
 			}
@@ -518,7 +510,7 @@ func xpathDynamicMutation(r *vh.Rng, root *interface{}) string {
 		`{"custom_parse":"nope"}`, `{"custom_parse":""}`, `{"no_trim":"yes"}`, `{"keep_empty_or_null":1}`, `{"type":5}`, `{"const":"a","unknown":{"deep":[1,2,3]}}`,
 		`{"custom_func":{"name":"javascript","args":[{"const":"1"},{"const":"a"}]}}`, `{"custom_func":{"name":"copy"}}`, `{"array":[{"array":[{"const":"a"}]}]}`,
 		`{"object":{"":{"const":"x"}}}`, `{"object":{"a.b":{"const":"x"},"a%b":{"const":"y"}}}`, `{"custom_func":{"name":"concat","args":[{"object":{"a":{"const":"x"}}}]}}`)
-	if !on("xd_no_null") {
+	{
 		pool = append(pool, `{"object":{"a":null}}`, `{"array":[null]}`, `{"custom_func":{"name":"concat","args":[null]}}`, `{"xpath_dynamic":{"array":[null,null]}}`,
 			`{"object":{"a":{"object":{"b":null}}}}`, `{"custom_func":null}`, `{"object":null}`, `{"array":null}`, `{"const":null}`, `{"template":null}`)
 	}
@@ -596,8 +588,11 @@ func addJSMutation(r *vh.Rng, root *interface{}, guard bool) string {
 		return "none"
 	}
 	args := []interface{}{constDecl(pick(r, jsPool))}
-	if !on("js_export_total") && r.Chance(0.3) {
+	if r.Chance(0.25) {
 		args = []interface{}{constDecl(pick(r, jsPoolOdd))}
+	}
+	if !on("js_no_map_set") && r.Chance(0.3) {
+		args = []interface{}{constDecl(pick(r, jsPoolMapSet))}
 	}
 	k := r.Between(0, 4)
 	for i := 0; i < k; i++ {
